@@ -335,6 +335,8 @@ impl<R: AsyncBufRead + Unpin> NsReader<R> {
     ) -> Result<Span> {
         // According to the https://www.w3.org/TR/xml11/#dt-etag, end name should
         // match literally the start name. See `Config::check_end_names` documentation
+        // The scope of the last `Empty` or `End` event read before this call is finished
+        self.pop();
         let result = self.reader.read_to_end_into_async(end, buf).await?;
         // The closing tag was consumed by the plain reader, so the scope opened
         // by the corresponding `Start` event is finished
